@@ -47,3 +47,27 @@ def compare(ctx: Ctx, rule: str, construct: str, func: Func, spec_src: str, *, e
             else f"normal form equals the documented formula ({source}): {nf.show(spec)[:160]}"),
            func.where)
     return ok
+
+
+def compare_full(ctx: Ctx, rule: str, construct: str, func: Func, spec_src: str, *, env=None, source: str = "", **opts):
+    """Obligation: returned term *and* every attribute / subscript store of `func` equal those of the spec function."""
+    try:
+        code, cb = code_term(ctx, func, env, **opts)
+    except terms.Opaque as e:
+        ctx.ob(rule, construct, False, f"function body left the analysable fragment ({e}); behaviour cannot be confirmed", func.where)
+        return False
+    tree = ast.parse(spec_src.strip())
+    sb = terms.Builder(None, None, dict(env or {}), **{k: v for k, v in opts.items() if k in ("positive", "erase_casts", "erase_validation", "keep_raises", "track_locals")})
+    spec = sb.run(strip_doc(tree.body[0].body))
+    none = terms.app("const", "None")
+    code = none if code is None else code
+    spec = none if spec is None else spec
+    bad = []
+    if code is nf.BOTTOM or not nf.equal(code, spec):
+        bad.append(f"returns  {nf.show(code)[:300]}\n      documented ({source}):  {nf.show(spec)[:300]}")
+    for k in sorted(set(cb.stores) | set(sb.stores)):
+        a, b_ = cb.stores.get(k), sb.stores.get(k)
+        if a is None or b_ is None or not nf.equal(a, b_):
+            bad.append(f"store `{k}`: code {nf.show(a)[:200] if a is not None else 'absent'}; documented {nf.show(b_)[:200] if b_ is not None else 'absent'}")
+    ctx.ob(rule, construct, not bad, "; ".join(bad) if bad else f"return value and {len(sb.stores)} store(s) equal the documented behaviour ({source})", func.where)
+    return not bad
